@@ -299,7 +299,12 @@ class ECDHESAlgorithm(JWEAlgorithm):
         else:
             bit_size = self.key_size
 
+        if not isinstance(headers["epk"], dict):
+            raise ValueError('Invalid "epk" in headers')
+
         epk = key.import_key(headers["epk"])
+        if epk["crv"] != key["crv"]:
+            raise ValueError('Invalid "epk" in headers: curves do not match')
         public_key = epk.get_op_key("wrapKey")
         dk = self.deliver(key, public_key, headers, bit_size)
 
@@ -313,6 +318,8 @@ class ECDHESAlgorithm(JWEAlgorithm):
 def u32be_len_input(s, base64=False):
     if not s:
         return b"\x00\x00\x00\x00"
+    if not isinstance(s, (str, bytes)):
+        raise ValueError("Invalid header value for key agreement")
     if base64:
         s = urlsafe_b64decode(to_bytes(s))
     else:
